@@ -12,7 +12,7 @@ usage: PYTHONPATH=/verif/harness python3 -m c19_pylog script.py [args]
 import os
 import sys
 
-_log = open(os.environ["C19_LOG"], "w")
+_log = open(os.environ["C19_LOG"], "w", buffering=1)      # line buffered: os._exit loses nothing
 sys.argv = sys.argv[1:]
 _pathname = sys.argv[0] if sys.argv[0][0] == "/" else os.getcwd() + "/" + sys.argv[0]
 _main_dir = os.path.dirname(_pathname)
@@ -52,7 +52,6 @@ _real_exit = os._exit
 
 
 def os_exit(n):
-    _log.flush()
     _real_exit(n)
 
 
